@@ -1,5 +1,5 @@
 """Registry: for each property, which correspondences, oracles and budgets make up its check."""
-from . import i3_card
+from . import i3_card, i1_logic
 
 TB_COMMON = [
     "Lean 4.33.0 kernel (thorough tier: re-checked with leanchecker)",
@@ -10,6 +10,15 @@ TB_COMMON = [
 ]
 
 REGISTRY = {
+    "C11": {
+        "correspondence": [i1_logic.corr_logic],
+        "oracle": [i1_logic.oracle_c11],
+        "oracle_budget": {"quick": 25, "thorough": 300},
+        "replay": lambda ctx, r: (lambda x: ctx.fail(x["what"], x) if x else None)(
+            i1_logic.c11_case(i1_logic.from_json(r["f"]), r["next"], r["conversion"])),
+        "trusted_base": TB_COMMON + ["str() of a namedtuple of ints is an injective cache key", "Python's list.sort is stable"],
+        "assumptions": ["next_variable is larger than every variable of the formula"],
+    },
     "C12": {
         "correspondence": [lambda ctx: i3_card.corr_card(ctx, include=("adders", "pop"))],
         "oracle": [i3_card.oracle_c12],
